@@ -1725,7 +1725,7 @@ class UTPM(Ring, RawAlgorithmsMixIn):
             # try to infer the dtype from x
             dtype= x.dtype
 
-            if dtype==int:
+            if numpy.issubdtype(dtype, numpy.integer) or dtype==bool:
                 dtype=float
 
 
@@ -1779,7 +1779,7 @@ class UTPM(Ring, RawAlgorithmsMixIn):
             # try to infer the dtype from x
             dtype= x.dtype
 
-            if dtype==int:
+            if numpy.issubdtype(dtype, numpy.integer) or dtype==bool:
                 dtype=float
 
 
@@ -1849,6 +1849,9 @@ class UTPM(Ring, RawAlgorithmsMixIn):
         """
 
         x = numpy.ravel(x)
+        if numpy.issubdtype(x.dtype, numpy.integer) or x.dtype==bool:
+            # an integer point is promoted to float, as in the other init_* drivers
+            x = x.astype(float)
 
         # generate directions
         N = x.size
@@ -1916,7 +1919,7 @@ class UTPM(Ring, RawAlgorithmsMixIn):
             # try to infer the dtype from x
             dtype= x.dtype
 
-            if dtype==int:
+            if numpy.issubdtype(dtype, numpy.integer) or dtype==bool:
                 dtype=float
 
         N = numpy.size(x)
